@@ -31,8 +31,7 @@ def columns(rows):
 
 
 def run(ctx):
-    ctx.trusted = list(C.TRUSTED_COMMON) + ["qsort is a correct sort (A-libc); the theorem needs pairwise distinct (length, first 256 name bytes) keys — generated names are "
-                                            "distinct within 256 bytes; names that differ only later are outside what is proved (see DESIGN.md C03)",
+    ctx.trusted = list(C.TRUSTED_COMMON) + ["qsort is a correct sort (A-libc); the theorem needs pairwise distinct names (sort key = (length, full name), strcmp since 15117bc)",
                                             "n >= 100: the k-means tree is a function of the canonical list in the model; on the code side this is observed (task lists compared)"]
     ctx.cov["_rule"] = ("generated sets with distinct names (common prefixes, equal lengths, duplicates of residues under different names) x k random permutations + reversal + "
                         "rotation, below and above 100 sequences, all types, threads 1/8; compared: column-membership sets and the canonical order / task list seen by the hooks; "
